@@ -29,6 +29,167 @@ def set_parents(tree):
     tree._parent = None
 
 
+# ---------------------------------------------------------------------------------------------
+# context-manager classes used only in ``with`` statements are expanded in place
+
+
+def _simple_expr(e):
+    if isinstance(e, (ast.Name, ast.Constant)):
+        return True
+    if isinstance(e, ast.Attribute):
+        return _simple_expr(e.value)
+    return False
+
+
+def _cm_spec(cdef):
+    """(field -> constructor parameter index, enter statements, enter result, exit statements) of a class that is a
+    plain context manager: fields copied from constructor parameters, straight-line __enter__/__exit__, exceptions
+    not swallowed; None otherwise"""
+    body = [m for m in cdef.body if not (isinstance(m, ast.Expr) and isinstance(m.value, ast.Constant))]
+    if not all(isinstance(m, ast.FunctionDef) for m in body):
+        return None
+    meths = {m.name: m for m in body}
+    if not ({'__enter__', '__exit__'} <= set(meths) <= {'__init__', '__enter__', '__exit__'}):
+        return None
+    if any(m.decorator_list for m in body):
+        return None
+    fields = {}
+    nparams = 0
+    if '__init__' in meths:
+        init = meths['__init__']
+        a = init.args
+        if a.vararg or a.kwarg or a.kwonlyargs or a.defaults or not a.args:
+            return None
+        params = [x.arg for x in a.args[1:]]
+        nparams = len(params)
+        me = a.args[0].arg
+        for st in init.body:
+            if isinstance(st, ast.Expr) and isinstance(st.value, ast.Constant):
+                continue
+            if isinstance(st, ast.Assign) and len(st.targets) == 1 and isinstance(st.targets[0], ast.Attribute) and \
+                    isinstance(st.targets[0].value, ast.Name) and st.targets[0].value.id == me and \
+                    isinstance(st.value, ast.Name) and st.value.id in params:
+                fields[st.targets[0].attr] = params.index(st.value.id)
+            else:
+                return None
+
+    def straight(fn, nargs):
+        a = fn.args
+        if a.vararg or a.kwarg or a.kwonlyargs or len(a.args) != nargs:
+            return None
+        me = a.args[0].arg
+        others = {x.arg for x in a.args[1:]}
+        stmts, ret = [], None
+        seq = [st for st in fn.body if not (isinstance(st, ast.Expr) and isinstance(st.value, ast.Constant))]
+        for i, st in enumerate(seq):
+            if isinstance(st, ast.Return):
+                if i != len(seq) - 1:
+                    return None
+                ret = st.value
+                continue
+            if not isinstance(st, (ast.Assign, ast.AugAssign, ast.Expr, ast.Pass)):
+                return None
+            stmts.append(st)
+        for st in stmts + ([ret] if ret is not None else []):
+            for x in ast.walk(st):
+                if isinstance(x, ast.Name) and x.id in others:
+                    return None
+                if isinstance(x, ast.Name) and x.id == me:
+                    par = getattr(x, '_parent', None)
+                    if not (isinstance(par, ast.Attribute) and par.value is x and par.attr in fields):
+                        return None
+                if isinstance(x, (ast.Yield, ast.YieldFrom, ast.Lambda, ast.Await)):
+                    return None
+                if isinstance(x, ast.Name) and isinstance(x.ctx, ast.Store):
+                    return None
+        return me, stmts, ret
+    en = straight(meths['__enter__'], 1)
+    ex = straight(meths['__exit__'], 4)
+    if en is None or ex is None:
+        return None
+    if ex[2] is not None and not (isinstance(ex[2], ast.Constant) and not ex[2].value):
+        return None             # may swallow the exception: not a try/finally
+    return dict(fields=fields, nparams=nparams, enter=en, exit=ex)
+
+
+def expand_context_manager_classes(tree):
+    """``with C(x) [as v]: body`` for a plain context-manager class C of the same module becomes
+    ``<C.__enter__ with self.f := x>; [v = result]; try: body; finally: <C.__exit__>`` and the class is dropped,
+    provided every mention of C is such a with-item.  -> names of the expanded classes"""
+    import copy
+    specs = {}
+    for st in tree.body:
+        if isinstance(st, ast.ClassDef) and any(isinstance(m, ast.FunctionDef) and m.name == '__enter__' for m in st.body):
+            sp = _cm_spec(st)
+            if sp is not None:
+                specs[st.name] = sp
+    if not specs:
+        return []
+    for n in ast.walk(tree):
+        if isinstance(n, ast.Name) and n.id in specs:
+            p = getattr(n, '_parent', None)
+            pp = getattr(p, '_parent', None)
+            ok = isinstance(p, ast.Call) and p.func is n and isinstance(pp, ast.withitem) and pp.context_expr is p and \
+                not p.keywords and len(p.args) == specs[n.id]['nparams'] and all(_simple_expr(a) for a in p.args) and \
+                (pp.optional_vars is None or isinstance(pp.optional_vars, ast.Name))
+            if not ok:
+                del specs[n.id]
+        elif isinstance(n, ast.ClassDef) and any(ast.unparse(b).split('.')[-1] in specs for b in n.bases):
+            for b in n.bases:
+                specs.pop(ast.unparse(b).split('.')[-1], None)
+    if not specs:
+        return []
+
+    def instantiate(part, args, spec, ref):
+        me, stmts, ret = part
+
+        class Sub(ast.NodeTransformer):
+            def visit_Attribute(self, node):
+                if isinstance(node.value, ast.Name) and node.value.id == me and node.attr in spec['fields']:
+                    return copy.deepcopy(args[spec['fields'][node.attr]])
+                self.generic_visit(node)
+                return node
+        out = [Sub().visit(copy.deepcopy(st)) for st in stmts]
+        r = Sub().visit(copy.deepcopy(ret)) if ret is not None else None
+        for st in out + ([r] if r is not None else []):
+            for x in ast.walk(st):
+                x.lineno = ref.lineno
+                x.col_offset = ref.col_offset
+                x.end_lineno = getattr(ref, 'end_lineno', ref.lineno)
+                x.end_col_offset = getattr(ref, 'end_col_offset', ref.col_offset)
+        return out, r
+
+    class Expand(ast.NodeTransformer):
+        def visit_With(self, node):
+            self.generic_visit(node)
+            body = node.body
+            changed = False
+            for item in reversed(node.items):
+                ce = item.context_expr
+                if isinstance(ce, ast.Call) and isinstance(ce.func, ast.Name) and ce.func.id in specs:
+                    sp = specs[ce.func.id]
+                    pre, res = instantiate(sp['enter'], ce.args, sp, node)
+                    post, _ = instantiate(sp['exit'], ce.args, sp, node)
+                    if item.optional_vars is not None:
+                        val = res if res is not None else ast.Constant(value=None)
+                        pre.append(ast.Assign(targets=[item.optional_vars], value=val))
+                    tr = ast.Try(body=body, handlers=[], orelse=[], finalbody=post or [ast.Pass()])
+                    body = pre + [tr]
+                    changed = True
+                else:
+                    body = [ast.With(items=[item], body=body)]
+            if not changed:
+                return node
+            for b in body:
+                ast.copy_location(b, node)
+                ast.fix_missing_locations(b)
+            return body
+    Expand().visit(tree)
+    tree.body = [st for st in tree.body if not (isinstance(st, ast.ClassDef) and st.name in specs)]
+    set_parents(tree)
+    return sorted(specs)
+
+
 class FuncInfo:
     def __init__(self, module, node, cls=None, parent=None):
         self.module = module
@@ -152,6 +313,7 @@ class Module:
         except SyntaxError as e:
             raise AnalysisError('cannot parse %s: %s' % (self.relpath, e))
         set_parents(self.tree)
+        self.expanded = expand_context_manager_classes(self.tree)
         self.classes = {}
         self.functions = {}
         self.star_imports = []     # repo module names (or external dotted names)
